@@ -1,5 +1,6 @@
 """Shared plumbing of the checks: paths, table regeneration, Lean build + audit, model driver, evidence, verdicts."""
 import fcntl
+import faulthandler
 import hashlib
 import json
 import os
@@ -16,6 +17,11 @@ PMODEL = os.path.join(LEAN, '.lake', 'build', 'bin', 'pmodel')
 PY = sys.executable
 ALLOWED_AXIOMS = {'propext', 'Classical.choice', 'Quot.sound'}
 FORBIDDEN = re.compile(r'\b(sorry|admit|native_decide|bv_decide|implemented_by)\b|^\s*axiom\s|\bunsafe\s|maxHeartbeats\s+0\b', re.M)
+try:      # `kill -USR1 <pid>` prints the Python stack of a check (or one of its workers) to stderr
+    import signal as _signal
+    faulthandler.register(_signal.SIGUSR1, all_threads=True)
+except Exception:  # noqa
+    pass
 WORKERS = int(os.environ.get('VERIF_WORKERS', str(min(16, os.cpu_count() or 4))))
 
 
